@@ -4,5 +4,9 @@ using namespace mfuse;
 
 MFUS_CLASS_DECLARATION(Listener, Game, NULL)
 {
+    // owned by the engine, never deleted by a script
+    { &EV_Delete,                        NULL },
+    { &EV_Remove,                        NULL },
+    { &EV_ScriptRemove,                    NULL },
     { NULL, NULL }
 };
